@@ -38,6 +38,75 @@ class FastQueue(queue.Queue):
         return item
 
 
+class SplitCall:
+    """the real BaseComponent._control_cb(cancel_tasks) run in a thread of its own and held, by a line tracer,
+    right after its first side effect (uids registered in the cancel list / CANCEL item put on the scheduler
+    queue), so that the scheduler loop can run between the two halves; finish() lets it complete.
+    halves() names what has happened so far, in order."""
+
+    def __init__(self, s, msg):
+        self.s, self.msg = s, msg
+        self.seen = []
+        self.exc = None
+
+    def _obs(self):
+        return (len(self.s._cancel_list), self.s._queue_sched.qsize())
+
+    def _note(self):
+        cur = self._obs()
+        if cur[0] != self.base[0] and 'cancel_reg' not in self.seen:
+            self.seen.append('cancel_reg')
+        if cur[1] != self.base[1] and 'cancel_q' not in self.seen:
+            self.seen.append('cancel_q')
+
+    def start(self):
+        self.base = self._obs()
+        self.go, self.held, self.fin = threading.Event(), threading.Event(), threading.Event()
+        paused = [False]
+
+        def local(frame, event, arg):
+            if event == 'line' and not paused[0]:
+                if self._obs() != self.base and not self.s._cancel_lock._is_owned():
+                    paused[0] = True
+                    self._note()
+                    self.held.set()
+                    self.go.wait(120)
+            return local
+
+        def tracer(frame, event, arg):
+            if frame.f_code.co_name == '_control_cb' and frame.f_code.co_filename.endswith('component.py'):
+                return local
+            return None
+
+        def run():
+            sys.settrace(tracer)
+            try:
+                self.s._control_cb('control_pubsub', self.msg)
+            except Exception as e:          # noqa
+                self.exc = repr(e)
+            finally:
+                sys.settrace(None)
+                self.fin.set()
+                self.held.set()
+
+        self.t = threading.Thread(target=run, daemon=True)
+        self.t.start()
+        self.held.wait(120)
+        first = list(self.seen)
+        if self.fin.is_set():
+            self._note()
+            first = None if len(self.seen) > 1 else list(self.seen)     # both at once: not split
+        return first
+
+    def finish(self):
+        before = list(self.seen)
+        self.base = self._obs()          # the loop has consumed the queue in between: compare afresh
+        self.go.set()
+        self.t.join(120)
+        self._note()
+        return [h for h in self.seen if h not in before]
+
+
 class FakeInput:
     def __init__(self):
         self.items = []
@@ -65,7 +134,12 @@ def tag_id(s):
     return {'0': 2, '': 3}.get(s) or int(s[3:])
 
 
-def task_dict(r):
+def node_name(case, i):
+    '''node names are no identity: the FORK resource manager calls every node localhost'''
+    return 'localhost' if case.get('names') == 'same' else 'node_%d' % i
+
+
+def task_dict(r, case=None):
     tags = {}
     if r.get('colo') is not None:
         tags['colocate'] = tag_value(r['colo'])
@@ -73,18 +147,21 @@ def task_dict(r):
             tags['exclusive'] = True
     slots = None
     if r.get('slots'):
-        slots = [{'node_index': s[0], 'node_name': 'node_%d' % s[0],
+        slots = [{'node_index': s[0], 'node_name': node_name(case or {}, s[0]),
                   'cores': [{'index': i, 'occupation': 1.0} for i in s[1]],
                   'gpus': [{'index': i, 'occupation': u / 64.0} for i, u in s[2]],
                   'lfs': s[3], 'mem': s[4]} for s in r['slots']]
     return {'uid': uid_of(r['uid']), 'type': 'task', 'state': AGENT_SCHEDULING_PENDING,
             'description': {'ranks': r['ranks'], 'cores_per_rank': r['cpr'],
-                            'gpus_per_rank': r['gpr'] / 64.0, 'lfs_per_rank': r['lfs'],
+                            'gpus_per_rank': r.get('gpr_f', r['gpr'] / 64.0), 'lfs_per_rank': r['lfs'],
                             'mem_per_rank': r['mem'], 'ranks_per_node': r['rpn'],
                             'priority': r['prio'], 'tags': tags,
                             'named_env': ('env%d' % r['env']) if r.get('env') is not None else None,
                             'slots': slots, 'partition': None, 'raptor_id': None,
                             'mode': 'task.executable', 'uid': uid_of(r['uid'])}}
+
+
+FLOAT_SHARES = [False]     # set by the driver per case
 
 
 def canon_slots(slots):
@@ -95,7 +172,9 @@ def canon_slots(slots):
         for g in s['gpus']:
             u = g['occupation'] * 64.0
             if u != int(u):
-                raise ValueError('gpu share not a multiple of 1/64: %r' % g['occupation'])
+                if not FLOAT_SHARES[0]:
+                    raise ValueError('gpu share not a multiple of 1/64: %r' % g['occupation'])
+                u = max(1, round(u))      # float-share cases: amounts are not compared (see c03.py)
             gpus.append([int(g['index']), int(u)])
         out.append([int(s['node_index']), cores, gpus, int(s['lfs']), int(s['mem'])])
     return out
@@ -127,7 +206,7 @@ class SchedDriver:
         s._log._debug_level = 0
         s._prof = mock.MagicMock()
         s._session = mock.MagicMock()
-        s.nodes = [{'index': i, 'name': 'node_%d' % i,
+        s.nodes = [{'index': i, 'name': node_name(case, i),
                     'cores': [None if c == 2 else float(c) for c in n['cores']],
                     'gpus': [None if c == 2 else float(c) for c in n['gpus']],
                     'lfs': cfg['lfs'], 'mem': cfg['mem']} for i, n in enumerate(case['nodes'])]
@@ -217,6 +296,7 @@ class SchedDriver:
 
     def run(self, case):
         import radical.utils as ru
+        FLOAT_SHARES[0] = bool(case.get('float_shares'))
         s = self.build(case)
         ops = list(case['ops'])
         eff = []              # effective operations (what was really delivered)
@@ -224,17 +304,21 @@ class SchedDriver:
         held = set()
         released = set()
         state = {'iters': 0}
+        pending = []          # split control calls waiting for their second half
         drv = self
 
         def do_ops():
             """perform ops up to the next 'iter'; False when none is left"""
+            while pending:
+                sc, us = pending.pop(0)
+                eff.extend([h, us] for h in sc.finish())
             while ops:
                 o = ops.pop(0)
                 if o[0] == 'iter':
                     eff.append(['iter'])
                     return True
                 if o[0] == 'arrive':
-                    s._inp.items.extend(task_dict(r) for r in o[1])
+                    s._inp.items.extend(task_dict(r, case) for r in o[1])
                     s.work_cb()
                     eff.append(o)
                 elif o[0] == 'cancel':
@@ -251,6 +335,19 @@ class SchedDriver:
                     else:
                         s._control_cb('control_pubsub', msg)
                     eff.append(['cancel', o[1]])
+                elif o[0] == 'cancel_split':
+                    # the scheduler loop runs between the two halves of the real _control_cb
+                    msg = {'cmd': 'cancel_tasks', 'arg': {'uids': [uid_of(u) for u in o[1]]}}
+                    sc = SplitCall(s, msg)
+                    first = sc.start()
+                    if first is None or sc.fin.is_set():
+                        if first is None:
+                            eff.append(['cancel', o[1]])
+                        else:
+                            eff.extend([h, o[1]] for h in first)
+                    else:
+                        eff.extend([h, o[1]] for h in first)
+                        pending.append((sc, o[1]))
                 elif o[0] == 'env':
                     s.control_cb('control_pubsub', {'cmd': 'register_named_env',
                                                     'arg': {'env_name': 'env%d' % o[1]}})
@@ -300,6 +397,8 @@ class SchedDriver:
              mock.patch.object(self.sbase.ru, 'lazy_bisect', bisect), \
              mock.patch.object(self.sbase.time, 'sleep', lambda x: None):
             s._schedule_tasks()
+        for sc, us in pending:
+            sc.finish()
         # events of trailing ops (after the last iter) are dropped with them
         return {'eff': eff, 'snaps': snaps}
 
@@ -379,6 +478,10 @@ def c_ops(eff, snaps):
             out.append('(Arrive %s)' % L.lst([c_req(r) for r in o[1]]))
         elif o[0] == 'cancel':
             out.append('(CancelMsg %s)' % L.zlist(o[1]))
+        elif o[0] == 'cancel_reg':
+            out.append('(CancelReg %s)' % L.zlist(o[1]))
+        elif o[0] == 'cancel_q':
+            out.append('(CancelQ %s)' % L.zlist(o[1]))
         elif o[0] == 'unsched':
             out.append('(Unsched %s)' % L.lst(['(%s, %s)' % (L.Z(u), c_slots(sl)) for u, sl in o[1]]))
         elif o[0] == 'env':
@@ -454,7 +557,8 @@ def gen_case(rng, size='small', preplaced=False, disciplined=True):
         ops.append(['iter'])
     else:
         ops.append(['iter'])
-    return {'kind': 'sched', 'cfg': cfg, 'nodes': nodes, 'ops': ops, 'disciplined': disciplined}
+    names = 'same' if rng.random() < 0.35 else 'unique'
+    return {'kind': 'sched', 'cfg': cfg, 'nodes': nodes, 'ops': ops, 'disciplined': disciplined, 'names': names}
 
 
 def gen_req(rng, uid, cfg, nodes, ntags, preplaced):
